@@ -19,7 +19,13 @@ import (
 	"syscall"
 	"time"
 
+	// every package of the module that imports tex is linked in, so that whatever their init functions do to tex's exported
+	// variables (tex.ErrTooLarge is assignable) also happens in the harness
+	_ "github.com/pinealctx/neptune/dl"
+	_ "github.com/pinealctx/neptune/idgen/snowflake"
+	_ "github.com/pinealctx/neptune/mpb"
 	"github.com/pinealctx/neptune/tex"
+	_ "github.com/pinealctx/neptune/vcode"
 
 	"nvharness/lib/corr"
 	_ "nvharness/lib/quiet"
@@ -154,9 +160,10 @@ func showErr(e error) string {
 		return "rerr"
 	case e == errWr:
 		return "werr"
-	case strings.Contains(e.Error(), "UnreadByte"):
+	// the error TEXT is part of "the same errors": only the exact message of the reference maps to the short name
+	case e.Error() == "bytes.Buffer: UnreadByte: previous operation was not a successful read":
 		return "unreadbyte"
-	case strings.Contains(e.Error(), "UnreadRune"):
+	case e.Error() == "bytes.Buffer: UnreadRune: previous operation was not a successful ReadRune":
 		return "unreadrune"
 	}
 	return "other:" + e.Error()
@@ -299,6 +306,7 @@ func (w *scriptWriter) Write(p []byte) (int, error) {
 
 type op struct {
 	name   string
+	alias  []byte // rewriteself: the payload really passed (a sub-slice of the buffer's own storage); data = its old contents
 	data   []byte
 	n      int64
 	term   string
@@ -670,7 +678,40 @@ func (s *session) line(l string) string {
 		}
 		return "T " + t + " ## B " + b
 	}
-	o, ok := parseOp(f)
+	if f[0] == "big" {
+		return s.big(f)
+	}
+	var o op
+	var ok bool
+	if f[0] == "rewriteself" {
+		if len(f) != 4 {
+			return "bad-op"
+		}
+		pos, ok1 := parseInt(f[1])
+		from, ok2 := parseNat(f[2])
+		to, ok3 := parseNat(f[3])
+		if !ok1 || !ok2 || !ok3 {
+			return "bad-op"
+		}
+		cur := s.t.Bytes()
+		ln := int64(len(cur))
+		if from > ln {
+			from = ln
+		}
+		if to < from {
+			to = from
+		}
+		if to > ln {
+			to = ln
+		}
+		al := cur[from:to:to]
+		o, ok = op{name: "rewrite", n: pos, data: append([]byte{}, al...), alias: al}, true
+		if o.alias == nil {
+			o.alias = []byte{}
+		}
+	} else {
+		o, ok = parseOp(f)
+	}
 	if !ok {
 		return "bad-op"
 	}
@@ -714,6 +755,46 @@ func (s *session) line(l string) string {
 	return tl + " ## B " + bl
 }
 
+// big: one payload far above anything the other classes write, on FRESH buffers: Write(pat a n); Next(r); Write(pat (a+1) n).
+// The second Write has to move n-r unread bytes (slide or reallocate). Results, length and FNV digest of the contents.
+func (s *session) big(f []string) string {
+	if len(f) != 4 {
+		return "bad-op"
+	}
+	a, ok1 := parseNat(f[1])
+	n, ok2 := parseNat(f[2])
+	r, ok3 := parseNat(f[3])
+	if !ok1 || !ok2 || !ok3 || n > 1<<26 || r > n {
+		return "bad-op"
+	}
+	pat := func(a int64) []byte {
+		p := make([]byte, n)
+		for i := range p {
+			p[i] = byte((a + 13*int64(i)) % 256)
+		}
+		return p
+	}
+	run := func(b bufAPI) (res string) {
+		defer func() {
+			if x := recover(); x != nil {
+				res = showPanic(x)
+			}
+		}()
+		n1, e1 := b.Write(pat(a))
+		got := len(b.Next(int(r)))
+		n2, e2 := b.Write(pat(a + 1))
+		if e1 != nil || e2 != nil {
+			return fmt.Sprintf("err=%s,%s n=%d,%d", showErr(e1), showErr(e2), n1, n2)
+		}
+		return fmt.Sprintf("n=%d,%d next=%d len=%d h=%016x", n1, n2, got, b.Len(), fnv(b.Bytes()))
+	}
+	t, b := run(new(tex.Buffer)), run(new(bytes.Buffer))
+	if t != b && !s.diverged {
+		s.hit("Write", "large-payload-differs-from-bytes.Buffer", fmt.Sprintf("fresh buffers, Write(%d bytes); Next(%d); Write(%d bytes): tex.Buffer -> %s; bytes.Buffer -> %s", n, r, n, t, b))
+	}
+	return "T " + t + " ## B " + b
+}
+
 // rewrite runs ReWrite and checks directly that exactly the addressed bytes of the storage changed.
 func (s *session) rewrite(o op) (res string) {
 	before := append([]byte(nil), s.t.Bytes()...)
@@ -725,7 +806,11 @@ func (s *session) rewrite(o op) (res string) {
 				res = showPanic(r)
 			}
 		}()
-		s.t.ReWrite(int(o.n), o.data)
+		if o.alias != nil {
+			s.t.ReWrite(int(o.n), o.alias) // source and destination may overlap: copy must behave like memmove
+		} else {
+			s.t.ReWrite(int(o.n), o.data)
+		}
 	}()
 	after := s.t.Bytes()
 	wantPanic := o.n < 0 || o.n > int64(off+len(before))
@@ -748,7 +833,11 @@ func (s *session) rewrite(o op) (res string) {
 		}
 	}
 	if bad != "" {
-		s.hit("ReWrite", "not-exact", fmt.Sprintf("ReWrite(%d, %s): %s", o.n, showBytes(o.data), bad))
+		how := ""
+		if o.alias != nil {
+			how = " (payload = a sub-slice of the buffer's own Bytes())"
+		}
+		s.hit("ReWrite", "not-exact", fmt.Sprintf("ReWrite(%d, %s)%s: %s", o.n, showBytes(o.data), how, bad))
 	}
 	return res
 }
